@@ -96,6 +96,10 @@ class L:
             return name.split("_")[0], self.cn.s(n["a"][0])
         if name in ("from_vertex", "to_vertex") and n.get("r") is not None:
             r = unwrap(n["r"])
+            hops = 0
+            while isinstance(r, dict) and r.get("k") == "var" and self.cn.kind.get(r.get("id")) == "pure" and hops < 8:
+                r = unwrap(self.f.resolve(self.cn.decl[r["id"]][0]["init"]))
+                hops += 1
             if isinstance(r, dict) and r.get("k") == "call" and r.get("pn", r.get("n", "")).split("::")[-1] == "halfedge" and len(r.get("a", [])) == 1:
                 return name.split("_")[0], self.cn.s(r["a"][0])
         return None
